@@ -28,6 +28,7 @@ Why(e) == CASE e.ev = "Ser" -> SerWhy(e)
             [] e.ev = "Ctor" -> IF CtorOk(e) THEN <<>> ELSE <<"Ctor", e.name, e.code>>
             [] e.ev = "CtorList" -> <<>>
             [] e.ev = "ErrMap" -> IF ErrMapOk(e) THEN <<>> ELSE <<"ErrMap", e.variant, e.code>>
+            [] e.ev = "WireCloseMark" -> IF WireCloseMarkOk(e) THEN <<>> ELSE <<"WireCloseMark", e.what, e.code, e.closeHeader>>
             [] e.ev = "CloseMark" -> IF CloseMarkOk(e) THEN <<>> ELSE <<"CloseMark", e.code, e.closeHeader, e.shut>>
             [] OTHER -> <<>>
 TInit == l = 1 /\ bad = {} /\ nvalid = 0
